@@ -14,33 +14,34 @@ EXTENDS CcDisplay, Json
 CONSTANTS Mix, Bursts
 VARIABLES hist, want, burst
 gvars == <<vars, hist, want, burst>>
-gview == <<ch, cur, last, lm, np, burst>>
+gview == <<ch, cur, last, lm, dm, np, burst>>
 \* finer: paths that reach the same state of the machine with another last pair are both continued (the decoder
 \* under test may tell them apart, e.g. in its memory of the last control pair)
-gview2 == <<ch, cur, last, lm, np, burst, lastAct>>
+gview2 == <<ch, cur, last, lm, dm, np, burst, lastAct>>
 GInit == Init /\ hist = <<>> /\ want = 0 /\ burst = 0
-\* the cells of a memory that are not transparent: <<row, col, code, fg, ul, it>>
+\* the cells of a memory that are not empty: <<row, col, code, fg, ul, it, flash, opacity, bg>> (the order of the driver's cells)
+B(b) == IF b THEN 1 ELSE 0
 Cells(mem) == LET S == {<<r, k>> \in (0..14) \X Cols : mem[r][k].u # 0} IN
-              {<<x[1], x[2], mem[x[1]][x[2]].u, mem[x[1]][x[2]].fg,
-                 IF mem[x[1]][x[2]].ul THEN 1 ELSE 0, IF mem[x[1]][x[2]].it THEN 1 ELSE 0>> : x \in S}
+              {LET y == mem[x[1]][x[2]] IN <<x[1], x[2], y.u, y.fg, B(y.ul), B(y.it), B(y.fl), y.op, y.bg>> : x \in S}
 Glyphs(c) == Cells(ch'[c].disp)
 SetToSeq(S) == LET RECURSIVE F(_) F(T) == IF T = {} THEN <<>> ELSE LET x == CHOOSE y \in T : TRUE IN <<x>> \o F(T \ {x}) IN F(S)
 
 KindOf(act) == IF act.a = "Text" THEN "TEXT" ELSE IF act.a = "Null" THEN "NULL" ELSE act.code.k
 \* in a weighted walk a code for a channel that has no mode yet is a wasted step (ignored by the standard and the decoder)
-Useful(c, code) == ch[c].mode # "none" \/ code.k \in {"RCL", "RDC", "RU", "EOC"}
-TextUseful(f) == cur[f] # 0 /\ ch[cur[f]].mode # "none"
+Useful(d, code) == ch[TargetOf(d, code)].mode # "none" \/ code.k \in CapModes
+TextUseful(f) == cur[f] \in Chans /\ ch[cur[f]].mode # "none"
 \* the steps of CcDisplay of the classes KS that are enabled (and useful) in the current state, as records like lastAct
-Acts(KS) == {[a |-> "Ctrl", c |-> x[1], code |-> x[2]] :
-                x \in {y \in Chans \X {z \in Codes : z.k \in KS} : Useful(y[1], y[2]) /\ (IsRep(y[1], y[2]) \/ Legal(y[1], y[2]))}}
+Acts(KS) == {[a |-> "Ctrl", c |-> x[1], code |-> x[2], t |-> TargetOf(x[1], x[2])] :
+                x \in {y \in DChans \X {z \in Codes : z.k \in KS} :
+                         TargetOf(y[1], y[2]) \in Chans /\ Useful(y[1], y[2]) /\ (IsRep(y[1], y[2]) \/ Legal(y[1], y[2]))}}
             \cup (IF "TEXT" \in KS /\ K("TEXT")
                   THEN {[a |-> "Text", f |-> x[1], c1 |-> x[2], c2 |-> x[3]] :
-                          x \in {y \in {FieldOf(c) : c \in Chans} \X Chars \X (Chars \cup {0}) :
+                          x \in {y \in Fields \X Chars \X (Chars \cup {0}) :
                                    TextUseful(y[1]) /\ TextViolated(y[1]) \subseteq Beyond}}
                   ELSE {})
-            \cup (IF "NULL" \in KS /\ K("NULL") THEN {[a |-> "Null", f |-> f] : f \in {FieldOf(c) : c \in Chans}} ELSE {})
+            \cup (IF "NULL" \in KS /\ K("NULL") THEN {[a |-> "Null", f |-> f] : f \in Fields} ELSE {})
 Apply(a) == CASE a.a = "Ctrl" -> Ctrl(a.c, a.code) [] a.a = "Text" -> Text(a.f, a.c1, a.c2) [] OTHER -> Null(a.f)
-RepeatOK == /\ lastAct.a = "Ctrl" /\ lastAct.code \in Codes
+RepeatOK == /\ lastAct.a = "Ctrl" /\ lastAct.code \in Codes /\ TargetOf(lastAct.c, lastAct.code) \in Chans
             /\ (IsRep(lastAct.c, lastAct.code) \/ Legal(lastAct.c, lastAct.code))
 \* breadth-first search (Mix empty): every step of CcDisplay.  Weighted walk: ONE step, drawn at random from the enabled
 \* steps of the class that was drawn before (a walk then costs one successor per pair instead of several hundred).
@@ -53,28 +54,29 @@ Step == IF Mix = <<>> THEN Next /\ UNCHANGED <<want, burst>>
              /\ want' = RandomElement(1..Len(Mix))
              /\ burst' = IF lastAct'.a = "Ctrl" /\ FieldOf(lastAct'.c) = 1 THEN Bursts[RandomElement(1..Len(Bursts))] ELSE 0
 \* (evidence only) where the channel the pair acts on stood before the pair: <<mode, roll-up depth, row, column>>
-At == LET c == IF lastAct'.a = "Ctrl" THEN lastAct'.c ELSE IF lastAct'.a = "Text" THEN cur[lastAct'.f] ELSE 0 IN
-      IF c = 0 THEN <<>> ELSE <<ch[c].mode, ch[c].roll, ch[c].row, ch[c].col>>
+At == LET c == IF lastAct'.a = "Ctrl" THEN lastAct'.t ELSE IF lastAct'.a = "Text" THEN cur[lastAct'.f] ELSE 0 IN
+      IF c \notin Chans THEN <<>> ELSE <<ch[c].mode, ch[c].roll, ch[c].row, ch[c].col>>
 \* the exclusion clauses the pair breaks (only with Beyond # {}; a swallowed repetition breaks none)
 Broken == IF lastAct'.a = "Ctrl" THEN (IF IsRep(lastAct'.c, lastAct'.code) THEN {} ELSE Violated(lastAct'.c, lastAct'.code))
           ELSE IF lastAct'.a = "Text" THEN TextViolated(lastAct'.f) ELSE {}
 GNext == np < MaxPairs /\ Step
-         /\ hist' = Append(hist, [act |-> lastAct', vis |-> [c \in 1..4 |-> IF c \in vis' THEN SetToSeq(Glyphs(c)) ELSE <<-1>>],
-                                  ev |-> [c \in 1..4 |-> c \in ev'], at |-> At, beyond |-> SetToSeq(Broken)])
+         /\ hist' = Append(hist, [act |-> lastAct', vis |-> [c \in 1..8 |-> IF c \in vis' THEN SetToSeq(Glyphs(c)) ELSE <<-1>>],
+                                  ev |-> [c \in 1..8 |-> c \in ev'], at |-> At, beyond |-> SetToSeq(Broken)])
 GSpec == GInit /\ [][GNext]_gvars
 
 \* Probes.  Backspace, tab offsets, special characters, ENM and characters in pop-on mode are no visibility points:
 \* what they did shows at the next one.  A probe is a control pair that is a visibility point for channel c and changes
 \* nothing else: the command of the current mode again (RUx of the same depth, RDC in paint-on mode) and EOC in pop-on
-\* mode (the loaded caption becomes visible).  Its expected page is computed by the machine like any other step.
-ProbeCode(s) == CASE s.mode = "paint" -> [k |-> "RDC"] [] s.mode = "roll" -> [k |-> "RU", n |-> s.roll] [] OTHER -> [k |-> "EOC"]
-Probeable(chv, lastv, c) == /\ chv[c].mode # "none" /\ (chv[c].mode = "pop" => ~chv[c].stale)
-                            /\ ~(FieldOf(c) = 1 /\ lastv = <<c, ProbeCode(chv[c])>>)
-ProbeRec(chv, c) == [act |-> [a |-> "Ctrl", c |-> c, code |-> ProbeCode(chv[c])],
-                     vis |-> [d \in 1..4 |-> IF d = c THEN SetToSeq(Cells(Do(chv[c], ProbeCode(chv[c])).disp)) ELSE <<-1>>],
-                     ev |-> [d \in 1..4 |-> FALSE], probe |-> TRUE, beyond |-> <<>>]
+\* mode (the loaded caption becomes visible), RTD for a text channel.  Its expected page is computed by the machine like any other step.
+ProbeCode(s) == CASE s.mode = "paint" -> [k |-> "RDC"] [] s.mode = "roll" -> [k |-> "RU", n |-> s.roll]
+                  [] s.mode = "text" -> [k |-> "RTD"] [] OTHER -> [k |-> "EOC"]
+Probeable(chv, lastv, c) == /\ c \in Chans /\ chv[c].mode # "none" /\ (chv[c].mode = "pop" => ~chv[c].stale)
+                            /\ ~(FieldOf(c) = 1 /\ lastv = <<DataOf(c), ProbeCode(chv[c])>>)
+ProbeRec(chv, c) == [act |-> [a |-> "Ctrl", c |-> DataOf(c), code |-> ProbeCode(chv[c]), t |-> c],
+                     vis |-> [d \in 1..8 |-> IF d = c THEN SetToSeq(Cells(Do(chv[c], ProbeCode(chv[c])).disp)) ELSE <<-1>>],
+                     ev |-> [d \in 1..8 |-> FALSE], probe |-> TRUE, beyond |-> <<>>]
 \* the channel the last pair acted on (0: none)
-Touched == IF lastAct'.a = "Ctrl" THEN lastAct'.c ELSE IF lastAct'.a = "Text" THEN cur'[lastAct'.f] ELSE 0
+Touched == IF lastAct'.a = "Ctrl" THEN lastAct'.t ELSE IF lastAct'.a = "Text" THEN cur'[lastAct'.f] ELSE 0
 \* transition cover (breadth-first search): one behaviour per explored transition - the shortest path to its source state,
 \* the transition, a probe of the channel it touched
 TDump == IF Beyond # {} /\ \A i \in 1..Len(hist') : hist'[i].beyond = <<>> THEN TRUE     \* (the other covers print those)
@@ -83,10 +85,16 @@ TDump == IF Beyond # {} /\ \A i \in 1..Len(hist') : hist'[i].beyond = <<>> THEN 
 RECURSIVE Probes(_, _)
 Probes(S, lastv) == IF S = {} THEN <<>>
                     ELSE LET c == CHOOSE x \in S : \A y \in S : x <= y IN
-                         IF Probeable(ch, lastv, c) THEN <<ProbeRec(ch, c)>> \o Probes(S \ {c}, <<c, ProbeCode(ch[c])>>)
+                         IF Probeable(ch, lastv, c) THEN <<ProbeRec(ch, c)>> \o Probes(S \ {c}, <<DataOf(c), ProbeCode(ch[c])>>)
                          ELSE Probes(S \ {c}, lastv)
 Dump == np = MaxPairs => PrintT(<<"TR", ToJson(hist \o Probes(Chans, last))>>)
 
+\* (cover "text") the way down the text window is walked with CR only: a text channel above row 14 is empty, its cursor in
+\* column 1, and the walk leaves MaxPairs - 14 - 1 pairs for the last rows
+Ladder == \A c \in Chans : (c > 4 /\ ch[c].row < 13) => (ch[c].disp = Mem0 /\ ch[c].col = 1 /\ ch[c].pen = Pen0 /\ np <= ch[c].row + 1)
+\* (covers "attrf", "attrb") states in which the channel still has no mode after the first pair are not continued (codes before any
+\* mode command are the business of the covers "mode" and "rep")
+Started == np >= 1 => \E c \in Chans : ch[c].mode # "none"
 NoMix == <<>>
 NoBurst == <<0>>
 BurstsWalk == <<0, 0, 0, 0, 0, 0, 1, 1, 1, 2, 3>>
@@ -98,4 +106,12 @@ MixEdge == <<"TEXT", "TEXT", "TEXT", "TEXT", "TEXT", "TEXT", "PAC", "PAC", "BS",
              "EOC", "EOC", "RU", "CR", "EDM", "ENM">>
 \* roll-up windows on every base row
 MixRoll == <<"TEXT", "TEXT", "TEXT", "TEXT", "PAC", "PAC", "PAC", "CR", "CR", "CR", "RU", "RU", "EDM", "RCL", "BS", "DER", "MID", "NULL">>
+\* attributes between characters
+MixAttr == <<"TEXT", "TEXT", "TEXT", "TEXT", "TEXT", "TEXT", "PAC", "PAC", "PACX", "MID", "MID", "FON", "FON", "BAOX", "BAOX", "BAOX", "BT", "FA",
+             "RDC", "RU", "RCL", "EOC", "EOC", "CR", "BS", "DER", "EDM", "ENM", "TO", "SPC">>
+\* captions and text channels of both fields taking turns
+MixText == <<"TEXT", "TEXT", "TEXT", "TEXT", "TEXT", "TEXT", "CR", "CR", "CR", "RTD", "RTD", "RTD", "TR", "PAC", "PAC", "MID", "RU", "RCL", "EOC", "EOC",
+             "RDC", "EDM", "ENM", "BS", "DER", "TO", "FON", "BAO", "NULL">>
+\* one text channel, many carriage returns
+MixTextDeep == <<"TEXT", "TEXT", "TEXT", "TEXT", "TEXT", "CR", "CR", "CR", "CR", "CR", "CR", "PAC", "PACX", "MID", "BS", "DER", "TO", "FON", "BAO", "RTD", "SPC">>
 =============================================================================
